@@ -26,9 +26,10 @@ def tasks(tier, seed):
 
 def settings_menu(seed, tier):
     R = explore.roles(seed)
-    m = [[R['R']], [R['B']], [R['W']], [R['N']], [R['X']], [R['R'], R['W']], [], [R['e']], [R['g']], [R['m']]]
+    m = [[R['R']], [R['B']], [R['W']], [R['N']], [R['X']], [R['R'], R['W']], [], [R['e']], [R['g']], [R['m']],
+         [R['R'], R['B']]]        # two new settings that conflict with each other: the last one given shows
     if tier != 'quick':
-        m += [[R['T']], [R['U']], [R['D']], [R['W'], R['N']]]
+        m += [[R['T']], [R['U']], [R['D']], [R['W'], R['N']], [R['o']], [R['B'], R['W'], R['R']]]
     return m
 
 
